@@ -87,10 +87,10 @@ theorem evalP_replay (env : Env) (e : Expr) (m : Msg) (fl : MFlags)
 
 /-! ## which calls evaluation issues -/
 
-theorem calls_sysCall {P : Call → Prop} (hexec : Calls P (execP none)) (hstat : ∀ p, P (.stat p)) (q : Req) :
+theorem calls_sysCall {P : Call → Prop} (hexec : ∀ argv, Calls P (execP argv none)) (hstat : ∀ p, P (.stat p)) (q : Req) :
     Calls P (sysCall q) := by
   cases q with
-  | command av => exact Calls.bind hexec fun _ => True.intro
+  | command av => exact Calls.bind (hexec _) fun _ => True.intro
   | isDir p => exact ⟨hstat p, fun _ => True.intro⟩
   | fileTime p f => exact ⟨hstat p, fun _ => True.intro⟩
 
@@ -101,11 +101,11 @@ theorem calls_toProg {α} {P : Call → Prop} (h : ∀ q, Calls P (sysCall q)) (
 
 /-- The calls of evaluation. -/
 def EvalCall (c : Call) : Prop :=
-  c = .openPath (ofString "/dev/null") ∨ c = .fork ∨ c = .waitpid ∨ (∃ h, c = .close h) ∨ ∃ p, c = .stat p
+  c = .openPath (ofString "/dev/null") ∨ c.isFork = true ∨ c = .waitpid ∨ (∃ h, c = .close h) ∨ ∃ p, c = .stat p
 
 /-- The calls of util.c `exec(argv, -1)`. -/
 def ExecCall (c : Call) : Prop :=
-  c = .openPath (ofString "/dev/null") ∨ c = .fork ∨ c = .waitpid ∨ ∃ h, c = .close h
+  c = .openPath (ofString "/dev/null") ∨ c.isFork = true ∨ c = .waitpid ∨ ∃ h, c = .close h
 
 macro "execcall_step" : tactic =>
   `(tactic| first
@@ -119,7 +119,7 @@ macro "execcall_step" : tactic =>
       | split
       | (dsimp only; split))
 
-theorem execCall_execP : Calls ExecCall (execP none) := by
+theorem execCall_execP (argv : List Bytes) : Calls ExecCall (execP argv none) := by
   unfold execP
   simp only [bind_eq, pure_eq, call_bind]
   repeat' execcall_step
@@ -136,7 +136,7 @@ theorem calls_mono' {α} {P Q : Call → Prop} {p : Prog α} (h : Calls P p) (hp
   | ret a => exact True.intro
   | call c k ih => exact ⟨hpq c h.1, fun r => ih r (h.2 r)⟩
 
-theorem evalCall_execP : Calls EvalCall (execP none) := calls_mono' execCall_execP fun _ h => h.evalCall
+theorem evalCall_execP (argv : List Bytes) : Calls EvalCall (execP argv none) := calls_mono' (execCall_execP argv) fun _ h => h.evalCall
 
 theorem evalCall_sysCall (q : Req) : Calls EvalCall (sysCall q) :=
   calls_sysCall evalCall_execP (fun p => .inr (.inr (.inr (.inr ⟨p, rfl⟩)))) q
@@ -148,7 +148,7 @@ theorem evalP_calls (env : Env) (e : Expr) (m : Msg) (fl : MFlags) :
   calls_toProg evalCall_sysCall _
 
 theorem EvalCall.quiet {c : Call} (h : EvalCall c) : c.mutating = false := by
-  rcases h with rfl | rfl | rfl | ⟨_, rfl⟩ | ⟨_, rfl⟩ <;> rfl
+  rcases h with rfl | h | rfl | ⟨_, rfl⟩ | ⟨_, rfl⟩ <;> first | rfl | exact Call.not_mutating_of_isFork h
 
 end Mdsort.Proofs
 
